@@ -269,16 +269,28 @@ def r3_one_suffix_per_run(ctx):
     ok = t.params[:2] == ["params_tuple", "output_filename_suffixes"]
     ctx.check(ok, t.qual + "#positional", "positional order (params, suffix) matches the apply_ufunc arguments" if ok else f"task's positional parameters are {t.params[:2]}", where=t, node=t.node.args)
     bf = ctx.func("pyxel.outputs.outputs:Outputs.build_filenames")
-    apps = [c for c in calls_in(bf.node) if isinstance(c.func, ast.Attribute) and c.func.attr == "append"]
-    paths = [st for st, val in local_defs(bf, "filename")]
-    ok = len(paths) == 2
-    if ok:
-        with_suffix = [st for st in paths if "filename_suffix" in norm(st.value)]
-        ok = len(with_suffix) == 1 and "{bucket_name}" in norm(with_suffix[0].value) and "{extension}" in norm(with_suffix[0].value)
-        from sa.astutil import enclosing_tests
+    from sa.astutil import accumulator_comp, enclosing_tests
 
-        ts = enclosing_tests(with_suffix[0]) if with_suffix else []
-        ok = ok and any((not pol and norm(t_) == "filename_suffix is None") or (pol and norm(t_) == "filename_suffix is not None") for t_, pol in ts)
+    rets_ = [r for r in returns_of(bf) if r.value is not None]
+    acc_name = dotted(rets_[0].value) if len(rets_) == 1 else None
+    comp = accumulator_comp(bf.node, acc_name) if acc_name else None
+    ok = isinstance(comp, ast.ListComp)
+    paths = []
+    if ok:
+        elt = expand(bf, comp.elt)
+        loopvars = {n.id for g_ in comp.generators[1:] for n in ast.walk(g_.target) if isinstance(n, ast.Name)}
+        ext_var = norm(comp.generators[-1].target)
+
+        def _embeds(e) -> bool:
+            nm = names_in(e)
+            return "filename_suffix" in nm and ext_var in nm and len(nm & loopvars) >= 2
+
+        if isinstance(elt, ast.IfExp) and "filename_suffix" in names_in(elt.test):
+            none_first = norm(elt.test) == "filename_suffix is None"
+            given = elt.orelse if none_first else elt.body
+            ok = _embeds(given) and norm(elt.test) in ("filename_suffix is None", "filename_suffix is not None")
+        else:
+            ok = _embeds(elt)
     ctx.check(ok, bf.qual + "#suffix", "every name carries bucket, suffix and extension when a suffix is given" if ok else "build_filenames does not embed the suffix in every name", where=bf, node=paths[0] if paths else bf.node)
 
 
